@@ -89,6 +89,9 @@ def loss_cases(tier):
         for fl in [(True, True), (True, False), (False, True)]:
             cases.append(VCase("nn.functional.mse_loss", {"op": "nn.functional.mse_loss", "shape": s, "requires_grad": list(fl)},
                                [Leaf("p", s, "any", fl[0]), Leaf("t", s, "any", fl[1])], lambda T, K: f.mse_loss(T["p"], T["t"]), functions=fns))
+    for sp, st in [((2,), (2, 2)), ((2, 2), (1, 2)), ((), (2,))]:
+        cases.append(VCase("nn.functional.mse_loss", {"op": "nn.functional.mse_loss", "shape": sp, "target_shape": st, "broadcast": True},
+                           [Leaf("p", sp), Leaf("t", st)], lambda T, K: f.mse_loss(T["p"], T["t"]), functions=fns))
     for red in reductions:
         for fl in [(True, True), (True, False)]:
             cases.append(VCase("nn.MSELoss", {"op": "nn.MSELoss", "shape": (2, 2), "reduction": red, "requires_grad": list(fl)},
@@ -114,6 +117,11 @@ def loss_cases(tier):
         for s in [(2,), (2, 1), ()]:
             cases.append(VCase("nn.functional." + name, {"op": "nn.functional." + name, "shape": s, "targets": "symbolic in (0,1)"},
                                [Leaf("p", s, dom), Leaf("t", s, "unit", False)], lambda T, K, name=name: getattr(f, name)(T["p"], T["t"]),
+                               functions=fns, eps="symbolic-then-zero", timeout_ms=20000))
+        # operands of different (broadcastable) shapes: the wrapper may refuse them (as mse_loss and PyTorch do); whatever it accepts must have the exact VJP
+        for sp, st in [((2,), (2, 2)), ((2, 1), (2, 2)), ((), (2,)), ((2, 2), (2,)), ((2, 2), (1, 2)), ((1,), (2, 1))]:
+            cases.append(VCase("nn.functional." + name, {"op": "nn.functional." + name, "shape": sp, "target_shape": st, "targets": "symbolic in (0,1)", "broadcast": True},
+                               [Leaf("p", sp, dom), Leaf("t", st, "unit", False)], lambda T, K, name=name: getattr(f, name)(T["p"], T["t"]),
                                functions=fns, eps="symbolic-then-zero", timeout_ms=20000))
         for tv in ([0.0, 1.0], [1.0, 1.0], [0.0, 0.0]):
             cases.append(VCase("nn.functional." + name, {"op": "nn.functional." + name, "shape": (2,), "targets": tv},
@@ -156,6 +164,13 @@ def linear_cases(tier):
                     leaves.append(Leaf("b", (O,), "any", fl[2]))
                 cases.append(VCase("nn.functional.linear", {"op": "nn.functional.linear", "N": N, "in": I, "out": O, "bias": bias, "requires_grad": list(fl)},
                                    leaves, lambda T, K, bias=bias: f.linear(T["x"], T["w"], T["b"] if bias else None), functions=fns))
+
+    # inputs of other ranks (a single sample; sequences / images of feature vectors): whatever the forward accepts must have the exact VJP
+    for xs in [(3,), (2, 2, 3), (2, 1, 2, 3), (1, 1, 3)]:
+        for bias in (True, False):
+            leaves = [Leaf("x", xs), Leaf("w", (2, 3))] + ([Leaf("b", (2,))] if bias else [])
+            cases.append(VCase("nn.functional.linear", {"op": "nn.functional.linear", "x_shape": xs, "in": 3, "out": 2, "bias": bias},
+                               leaves, lambda T, K, bias=bias: f.linear(T["x"], T["w"], T["b"] if bias else None), functions=fns))
 
     def layer(T, K, cls, bias, I, O):
         from synapgrad.nn.modules import Parameter
